@@ -78,7 +78,7 @@ def cliOp (args impl : List String) : Option (String × String) := do
       | .ok p =>
         -- logfmt=json: the command uses f1's own JSON logger, so there is no captured summary; the body's own counters stand in
         -- for the counts (such cases use users mode: nothing is dropped) and the banner clauses do not apply
-        let jsonLog := (get "logfmt") = some "json" ∨ (get "logfmt") = some "text"
+        let jsonLog := (get "logfmt") = some "json" ∨ (get "logfmt") = some "text" ∨ (get "loglevel").isSome
         let truth := triple "truth"
         let stats := if jsonLog then truth ++ [0] else triple "stats"
         let succ := (stats.getD 0 0).toNat; let failed := (stats.getD 1 0).toNat; let dropped := (stats.getD 2 0).toNat
@@ -110,6 +110,11 @@ def cliOp (args impl : List String) : Option (String × String) := do
         else if (match (get "sigint").bind String.toInt? with
             | some sg => decide (n "ret" > sg + ((get "bodyms").bind String.toInt?).getD 0 + 1500 + max 0 (n "stall")) | none => false) then
           "FAIL interrupted-command-kept-running"
+        -- the command line has no flag for the completion timeout: it is the hard-wired 10 s. A command that returns with
+        -- iteration functions still executing must have waited that long after whatever ended its run (C06: the setup cleanups and
+        -- the verdict come after the iterations, or after the timeout)
+        else if n "inflightret" > 0 ∧ n "ret" < 10000 - 100 then
+          "FAIL command-returned-with-iterations-in-flight-before-the-completion-timeout"
         else if (match (get "retmax").bind String.toInt? with | some m => decide (n "ret" > m + max 0 (n "stall")) | none => false) then
           "FAIL command-did-not-return-once-its-run-was-over"
         else
